@@ -4,8 +4,8 @@
    TimeFixedGFormula.fit_stochastic, stochastic_check_conditional); proofs: Proofs/StochasticProofs.v. *)
 From Coq Require Import QArith Qround List Bool Arith ZArith Permutation.
 From Zepid Require Import Base.QSum Base.QUtil Base.Rows Proofs.RowsProofs Model.Estimators Proofs.EstimatorsProofs
-  Model.Stochastic Proofs.StochasticProofs GenProofs.GenProofs_gfmarg GenProofs.GenProofs_siptw14.
-From ZepidGen Require Import Gen_gfmarg_Q Gen_siptw_Q.
+  Model.Stochastic Proofs.StochasticProofs GenProofs.GenProofs_gfmarg GenProofs.GenProofs_siptw14 GenProofs.GenProofs_stmle.
+From ZepidGen Require Import Gen_gfmarg_Q Gen_siptw_Q Gen_stmle_Q.
 Import ListNotations.
 Open Scope Q_scope.
 
@@ -196,6 +196,11 @@ Proof. exact gen14_numer. Qed.
 Theorem C14_src_stoch_iptw_weight : forall pl r, src_siptw_weight pl r = siptw_weight pl r.
 Proof. exact gen14_weight. Qed.
 
+(* ---- the clever covariate of StochasticTMLE.fit in the CURRENT source: the same plan numerator over the fitted probability of
+   the treatment received *)
+Theorem C14_src_stmle_clever_covariate : forall pl r, src_stmle_haw pl r = stmle_haw pl r.
+Proof. exact gen_stmle_haw. Qed.
+
 Print Assumptions C14_assign_p_perm.
 Print Assumptions C14_assign_is_the_match.
 Print Assumptions C14_assign_exhaustive.
@@ -221,3 +226,4 @@ Print Assumptions C14_src_fit_stochastic_marginal_unweighted.
 Print Assumptions C14_src_degenerate_replicate.
 Print Assumptions C14_src_stoch_iptw_numer.
 Print Assumptions C14_src_stoch_iptw_weight.
+Print Assumptions C14_src_stmle_clever_covariate.
